@@ -4,7 +4,7 @@
    same hash trees, the same UEB, hence the same capability. *)
 From Coq Require Import List ZArith NArith Bool Lia.
 From Verif Require Import Gen.ImmConsts Model.HashTree Model.ImmFile Model.ImmVerify Model.ImmCheck
-  Proofs.ImmFileArith Proofs.ImmFileRead Proofs.ImmVerifyTree Proofs.ImmVerify Proofs.ImmVerifyRead Proofs.ImmCheck.
+  Proofs.ImmFileArith Proofs.ImmFileRead Proofs.ImmVerifyTree Proofs.ImmVerify Proofs.ImmVerifyComplete Proofs.ImmVerifyRead Proofs.ImmCheck.
 Import ListNotations.
 Local Open Scope N_scope.
 
@@ -62,7 +62,12 @@ Section Repair.
       read_plan (N.of_nat (length ct)) segsize guess 0 None = SegDone ws ->
       serve c (node_init H c) ws script = (chunks, None) ->
       let f' := repair_encode enc (c_k c) (c_n c) ss (concat chunks) in
-      f' = f /\ g_cap key f' = c /\ forall ver o i, g_share f' ver o i = g_share f ver o i.
+      f' = f /\ g_cap key f' = c /\ (forall ver o i, g_share f' ver o i = g_share f ver o i) /\
+      (* ... and a download that starts fresh accepts every block of every share the repair wrote *)
+      (forall ver o i j ords,
+         check_offsets H UB (g_share f' ver o i) = None -> (0 <= i < Z.of_N n)%Z -> (0 <= j < nseg f)%Z ->
+         exists dn', get_block H H_eqb pair_hash truthy block_hash UB ueb_hash parse_ueb c (node_init H c) i j (g_share f' ver o i) ords
+                     = (dn', GBlock (gblock f i j))).
   Proof.
     intros k n segsize guess ct key script tries ord Hct Hk Hs Hm Hg f c dn0 r0 ss ws chunks Hf Hss Hplan Hsv f'.
     pose proof (encode_file_wf enc k n segsize ct Hk Hs Hm) as Hwf. fold f in Hwf.
@@ -75,7 +80,10 @@ Section Repair.
     assert (Hct' : concat chunks = ct) by (rewrite Hok; reflexivity).
     assert (Ef : f' = f).
     { unfold f', repair_encode. rewrite Hct', Ess. reflexivity. }
-    split; [exact Ef|]. rewrite Ef. split; [reflexivity|intros; reflexivity].
+    split; [exact Ef|]. rewrite Ef. split; [reflexivity|]. split; [intros; reflexivity|].
+    intros ver o i j ords Hoff Hi Hj.
+    apply (new_node_accepts_genuine_block H H_eqb pair_hash truthy empty_leaf block_hash seg_hash UB ueb_hash parse_ueb ser_ueb
+             H_eqb_spec all_truthy_H parse_ser f key Hwf ver o i j ords Hoff Hi Hj).
   Qed.
 End Repair.
 
